@@ -11,9 +11,10 @@ PLACE = ["wd", "anc", "absent"]
 
 def space(tier, seed):
     allc = []
-    for sl, sf, sp, sr, flag, p_env, p_f, p_g, p_p, p_q, inv in itertools.product(
+    for sl, sf, sp, sr, flag, p_env, p_f, p_g, p_p, p_q, inv, dirs in itertools.product(
             [None, True, False], [None, "f.env"], [None, "p.env"], [False, True],
-            ["none", "fname", "fpath", "nodotenv"], PLACE, PLACE, PLACE, [True, False], [True, False], ["plain", "jfwd", "subdir"]):
+            ["none", "fname", "fpath", "nodotenv"], PLACE, PLACE, PLACE, [True, False], [True, False], ["plain", "jfwd", "subdir"],
+            [False, True]):
         if sf is None and p_f != "absent":
             continue  # f.env only matters when named
         if flag != "fname" and p_g != "absent":
@@ -24,7 +25,7 @@ def space(tier, seed):
             continue
         allc.append({"set_load": sl, "set_filename": sf, "set_path": sp, "set_required": sr, "flag": flag,
                      "files": {".env": p_env, "f.env": p_f, "g.env": p_g}, "p.env": p_p and sp is not None,
-                     "q.env": p_q and flag == "fpath", "inv": inv})
+                     "q.env": p_q and flag == "fpath", "inv": inv, "dirs": dirs})
     total = len(allc)
     if tier == "quick":
         rng = C.case_rng(seed, 0, "c18")
@@ -64,6 +65,11 @@ def run_case(c):
             for name in (".env", "f.env", "g.env", "p.env", "q.env"):
                 open(os.path.join(proj, name), "w").write(envfile("decoy-justfile-dir:" + name))
         open(os.path.join(wd, "sub.env"), "w").write(envfile("decoy-submodule-setting"))
+        # directories named like an environment file are not environment files: the search passes over them
+        if c.get("dirs"):
+            for name in (".env", "f.env", "g.env", "p.env", "q.env"):
+                if not os.path.exists(os.path.join(wd, name)):
+                    os.makedirs(os.path.join(wd, name, "bin"))
         jf = 'set shell := ["%s", "-c"]\n' % C.VSH
         if c["set_load"] is not None:
             jf += "set dotenv-load := %s\n" % ("true" if c["set_load"] else "false")
@@ -109,8 +115,8 @@ def run_case(c):
         stderr = p.stderr.decode("utf-8", "replace")
         obs["error"] = "required" if "Dotenv file not found" in stderr else (None if p.returncode == 0 else "other:" + stderr[-200:])
         # abstract file system for the model / spec
-        wd_files = sorted(os.listdir(wd))
-        anc_files = sorted(os.listdir(anc))
+        wd_files = sorted(x for x in os.listdir(wd) if os.path.isfile(os.path.join(wd, x)))
+        anc_files = sorted(x for x in os.listdir(anc) if os.path.isfile(os.path.join(anc, x)))
         return {"obs": obs, "wd_files": wd_files, "anc_files": anc_files, "argv": [a.replace(d, "<D>") for a in argv],
                 "justfile": jf}
 
@@ -149,7 +155,7 @@ def run(report):
                "flagPath": "q.env" if c["flag"] == "fpath" else None, "noDotenv": c["flag"] == "nodotenv"}
         reqs.append({"op": "dotenv", "cfg": cfg, "pathFiles": r["wd_files"], "ancestors": [r["wd_files"], r["anc_files"], ["x"]]})
     model = drv.pbatch(reqs, chunk=3000)
-    stats = {"cases": len(cases), "space": total, "loaded": {}, "inactive_or_empty": 0, "required_errors": 0, "strace_checked": 0}
+    stats = {"cases": len(cases), "space": total, "with_directories_named_like_env_files": sum(1 for c in cases if c.get("dirs")), "loaded": {}, "inactive_or_empty": 0, "required_errors": 0, "strace_checked": 0}
     distinct = set()
     samples = []
     for c, r, m in zip(cases, results, model):
@@ -228,7 +234,7 @@ def run(report):
     report.coverage.update({
         "evaluations": len(cases),
         "distinct_nontrivial": len(distinct),
-        "rule": "product of settings {dotenv-load none/true/false, dotenv-filename, dotenv-path, dotenv-required} x flag {none, --dotenv-filename, --dotenv-path, --no-dotenv} x placement of each candidate file {working directory, ancestor, absent} x invocation {justfile dir, subdirectory, --justfile + --working-directory elsewhere with decoy files in the justfile dir}; a key preset in the environment; submodule with its own dotenv settings (ignored); %s; distinct = distinct (case, observation)" % ("complete" if tier == "thorough" else "random sample, space size in stats"),
+        "rule": "product of settings {dotenv-load none/true/false, dotenv-filename, dotenv-path, dotenv-required} x flag {none, --dotenv-filename, --dotenv-path, --no-dotenv} x placement of each candidate file {working directory, ancestor, absent} x {no, a directory of the same name wherever the working directory has no such file} x invocation {justfile dir, subdirectory, --justfile + --working-directory elsewhere with decoy files in the justfile dir}; a key preset in the environment; submodule with its own dotenv settings (ignored); %s; distinct = distinct (case, observation)" % ("complete" if tier == "thorough" else "random sample, space size in stats"),
         "samples": samples,
         "exhaustive": tier == "thorough",
         "traces_validated_against_impl": len(cases),
